@@ -106,4 +106,5 @@ DumpColl == {[argkind |-> "coll", arg |-> a, skew |-> sk, expected |-> ExpectedO
 DumpInit == /\ JsonSerialize(IOEnv.DUMP_FILE,
                  SetToSeq({c \in DumpOne : ValidPts(c.arg, c.skew)}) \o SetToSeq({c \in DumpColl : \A i \in 1..Len(c.arg) : ValidPts(c.arg[i], c.skew)}))
             /\ Init
+DumpNext == UNCHANGED vars        \* the dump run only needs the initial states: nothing is explored after them
 =============================================================================
